@@ -473,6 +473,7 @@ type MapVal struct {
 }
 
 type ContractFile struct {
+	Immutables []string // package-level variables that never change after initialisation
 	MapVals []MapVal
 	Globals []GlobalInv
 	Pkg    string
@@ -482,7 +483,7 @@ type ContractFile struct {
 	Lemmas []*Lemma
 }
 
-var clauseKW = map[string]bool{"mapval": true, "global": true, "func": true, "spec": true, "uf": true, "lemma": true, "axiom": true,
+var clauseKW = map[string]bool{"immutable": true, "mapval": true, "global": true, "func": true, "spec": true, "uf": true, "lemma": true, "axiom": true,
 	"props": true, "requires": true, "ensures": true, "panics": true, "modifies": true, "loop": true,
 	"inline": true, "assumed": true, "pure": true, "nooverflow": true, "maypanic": true, "nopaniccheck": true, "nonilcheck": true, "nolocks": true, "strictpanics": true, "splitreturns": true, "deadreturn": true,
 	"split": true, "excuse": true, "makebound": true, "recspec": true, "induct": true, "datainv": true}
@@ -599,6 +600,9 @@ func parseContractFile(path, pkg string) (*ContractFile, error) {
 			curLemma = &Lemma{Name: strings.TrimSpace(rest[:k]), Pkg: pkg, E: e, Src: strings.TrimSpace(rest[k+1:]), Pos: pos, Axiom: kw == "axiom"}
 			cf.Lemmas = append(cf.Lemmas, curLemma)
 			cur = nil
+		case "immutable":
+			cf.Immutables = append(cf.Immutables, strings.Fields(strings.ReplaceAll(rest, ",", " "))...)
+			cur, curLemma = nil, nil
 		case "mapval":
 			k := strings.Index(rest, ":")
 			if k < 0 {
